@@ -98,7 +98,7 @@ def install(reg):
     ]
     ens = [(n, "env_has(final('environ'), %r) and (%s)" % (k, t.replace("ENV", "final('environ')"))) for n, k, t in CL]
     inv = [(n, "env_has(environ, %r) and (%s)" % (k, t.replace("ENV", "environ"))) for n, k, t in CL]
-    inv.append(("client-headers-only-add-HTTP_-or-CONTENT_-keys", "not env_has(environ, 'waitress.client_disconnected')"))
+    inv.append(("C07-client-headers-only-add-HTTP_-or-CONTENT_-keys", "not env_has(environ, 'waitress.client_disconnected')"))
     reg.add(FuncContract(T + ".get_environment", requires=[("not-cached", "self.environ is None"),
                                                            ("url-prefix-shape", "self.channel.server.adj.url_prefix == '' or (self.channel.server.adj.url_prefix.startswith('/')"
                                                                                 " and not self.channel.server.adj.url_prefix.startswith('//') and not self.channel.server.adj.url_prefix.endswith('/'))")],
